@@ -263,6 +263,12 @@ class StubBinding:
             w = rw.run()
         except StubBypassed as ex:
             return {"raised": None, "lost": repr(ex), "qlog": []}
+        except AttributeError as ex:
+            if "'tuple' object has no attribute" in str(ex):
+                # the code reads the stubbed method's result by field name: the library's own method returns a richer tuple type
+                # than the scripted stand-in; the replay cannot drive this organisation of the code (binding lost, not a violation)
+                return {"raised": None, "lost": repr(ex), "qlog": []}
+            return {"raised": repr(ex), "qlog": qlog}
         except (OffGrid, PoisonUsed) as ex:  # the code searches differently from the specification: judged by judge() on the extended oracle
             return {"raised": None, "path": repr(ex), "qlog": qlog}
         except Exception as ex:  # an exception is an outcome no specification behaviour has
